@@ -12,6 +12,8 @@ import Verif.Lemmas.MptStoreTrie
 import Verif.Lemmas.Prune
 import Verif.Lemmas.MptStoreEvents
 import Verif.Props.C04
+import Verif.Lemmas.MptChain
+import Verif.Lemmas.TrieRun
 namespace Verif.Props.C05
 open Verif.Mpt Verif.MptStore Verif.MptStore.Collector Verif.Props.C04
 
@@ -47,6 +49,47 @@ theorem dead_not_live_partial (H : Bytes → Bytes) (t0 t : Node) (b0 : Trie) (e
     apply inv.deletes_dead e.1 d' hg
     rw [← hk, ← hrk]
     exact hcov r hr
+
+/-- **Dead set ∩ live set = ∅ within a round** — closed form for a round of inserts and deletes on one trie: the
+    event discipline is proved for the emitted events; remaining hypotheses: canonical start tree, fresh collector,
+    key injectivity on the references of the start tree and of the round's events. -/
+theorem dead_not_live (H : Bytes → Bytes) (t0 t : Node) (b0 : Trie) (v : Nat) (es : List Event)
+    (hfresh : b0.cc.changes = [] ∧ b0.cc.deletes = [])
+    (hw : WF t0)
+    (hr : RoundEvents v t0 es t)
+    (hU : KeyInjOn H (fun r => r ∈ refs t0 [] ∨ r ∈ eventRefs es)) :
+    ∀ x ∈ deadKeys H (b0.applyEvents H es), x ∉ nodeKeys H t := by
+  obtain ⟨hd, hc, _⟩ := round_discipline H hr hw hU
+  exact dead_not_live_partial H t0 t b0 es hfresh hd hc
+
+/-- **Dead set ∩ live set = ∅ — any round of a block trie** (own operations and merged, possibly nested, transactions:
+    `TrieRun`); discipline proved, key injectivity on the run's references assumed. -/
+theorem dead_not_live_run (H : Bytes → Bytes) (U : Ref → Prop) (t0 t : Node) (b0 : Trie) (v : Nat) (es : List Event)
+    (hfresh : b0.cc.changes = [] ∧ b0.cc.deletes = []) (hw : WF t0) (hUt : ∀ r ∈ refs t0 [], U r)
+    (hrun : TrieRun H U v t0 es t) (hU : KeyInjOn H U) :
+    ∀ x ∈ deadKeys H (b0.applyEvents H es), x ∉ nodeKeys H t := by
+  obtain ⟨hd, hc, _, _, _⟩ := trieRun_discipline H U hU hrun hw hUt (fun x => x ∈ (refs t0 []).map (Ref.key H))
+    (fun r hr => List.mem_map.mpr ⟨r, hr, rfl⟩)
+    (by intro x hx; obtain ⟨r, hr, hk⟩ := List.mem_map.mp hx; exact ⟨r, hUt r hr, hk⟩)
+  exact dead_not_live_partial H t0 t b0 es hfresh hd hc
+
+/-- non-vacuity of `dead_not_live`: the round `ins [3] := 66` on the one-leaf tree of version 1, at version 2 -/
+example : ∀ x ∈ deadKeys id ((Trie.open [] (.leaf 1 [3] [65]) 2).applyEvents id ((insertE 2 [66] (.leaf 1 [3] [65]) [] [3]).2 ++ [])),
+    x ∉ nodeKeys id (.leaf 2 [3] [66]) := by
+  have hne : Ref.key id ⟨[], .leaf 1 [3] [65]⟩ ≠ Ref.key id ⟨[], .leaf 2 [3] [66]⟩ := by
+    intro hk
+    simp [Ref.key, key, le64] at hk
+    exact absurd (congrArg List.getLast? hk) (by simp)
+  have hr : RoundEvents 2 (.leaf 1 [3] [65]) ((insertE 2 [66] (.leaf 1 [3] [65]) [] [3]).2 ++ []) (.leaf 2 [3] [66]) := by
+    apply RoundEvents.ins _ _ _ _ _ (by simp)
+    have h2 : (insertE 2 [66] (.leaf 1 [3] [65]) [] [3]).1 = .leaf 2 [3] [66] := by simp [insertE, splitCommon]
+    rw [h2]
+    exact RoundEvents.nil _
+  apply dead_not_live id _ _ (Trie.open [] (.leaf 1 [3] [65]) 2) 2 _ ⟨rfl, rfl⟩ (Or.inr (by simp [WFn])) hr
+  intro a b ha hb hk
+  simp [refs, insertE, splitCommon, eventRefs] at ha hb
+  rcases ha with ha | ha <;> rcases hb with hb | hb <;> subst ha <;> subst hb <;>
+    first | rfl | exact absurd hk hne | exact absurd hk.symm hne
 
 /-- non-vacuity: overwrite the only leaf of a round's start tree; its old key is recorded dead, the new leaf is live -/
 example : ∀ x ∈ deadKeys id ((Trie.open [] (.leaf 1 [3] [65]) 2).applyEvents id (insertE 2 [66] (.leaf 1 [3] [65]) [] [3]).2),
@@ -108,6 +151,117 @@ example : ∀ j x, (fun i x => i = 1 ∧ x = ((0 : Nat), "a")) (0 + 1) x →
     refine ⟨Or.inl ⟨rfl, h2⟩, ?_⟩
     intro h
     rcases h with ⟨h, _⟩ | ⟨h, _⟩ <;> omega
+
+/-- every key recorded dead by a trie with a fresh collector is the key of an OLD reference of one of its events -/
+theorem deadKeys_sub_eventRefs (H : Bytes → Bytes) (b0 : Trie) (es : List Event)
+    (hfresh : b0.cc.changes = [] ∧ b0.cc.deletes = []) :
+    ∀ x ∈ deadKeys H (b0.applyEvents H es), ∃ d ∈ eventRefs es, d.key H = x := by
+  intro x hx
+  simp only [deadKeys, applyEvents_cc, Collector.getDeletes] at hx
+  have hcc0 : b0.cc = { startRoot := b0.cc.startRoot } := by
+    cases hb : b0.cc with
+    | mk s c d => rw [hb] at hfresh; simp at hfresh; simp [hfresh.1, hfresh.2]
+  rw [hcc0] at hx
+  have prov := prov_run (P := fun r => r ∈ eventRefs es) (callsOf H es)
+    (prov_init (Ref.key H) _ b0.cc.startRoot) (callNodes_callsOf H es)
+  obtain ⟨d, hd, rfl⟩ := List.mem_map.mp hx
+  obtain ⟨e, he, rfl⟩ := List.mem_map.mp hd
+  exact ⟨e.2, (prov.deletes e he).2, rfl⟩
+
+/-- **A node recorded dead stays dead** — closed form for a chain of rounds on one trie.  `T i` is the tree saved by
+    round `i`, `E (i+1)` the events of round `i+1` (a sequence of inserts/deletes at version `vs (i+1)` leading from
+    `T i` to `T (i+1)`), `b i` the trie (fresh collector) that executed them.  With strictly increasing versions, and
+    the key injective on the references of all trees and events of the chain, a key recorded dead by round `r+1` is
+    the key of no node of any later tree: the origin stamped by `insertNode` is part of the reference, later rounds
+    create only nodes of later origins. -/
+theorem C05_dead_forever_rounds (H : Bytes → Bytes) (T : Nat → Node) (E : Nat → List Event) (vs : Nat → Nat)
+    (b : Nat → Trie)
+    (hfresh : ∀ i, (b i).cc.changes = [] ∧ (b i).cc.deletes = [])
+    (hround : ∀ i, RoundEvents (vs (i + 1)) (T i) (E (i + 1)) (T (i + 1)))
+    (hw0 : WF (T 0))
+    (horg0 : ∀ r ∈ refs (T 0) [], origin r.t ≤ vs 0)
+    (hmono : ∀ i j, i < j → vs i < vs j)
+    (hU : KeyInjOn H (fun r => ∃ i, r ∈ refs (T i) [] ∨ r ∈ eventRefs (E (i + 1)))) :
+    ∀ r j x, x ∈ deadKeys H ((b r).applyEvents H (E (r + 1))) → x ∉ nodeKeys H (T (r + 1 + j)) := by
+  have hwf : ∀ i, WF (T i) := by
+    intro i
+    induction i with
+    | zero => exact hw0
+    | succ i ih => exact (round_ok (hround i) ih (fun r => r ∈ refs (T i) []) (fun _ h => h)).2.2
+  have hnext : ∀ i, ∀ r ∈ refs (T (i + 1)) [], r ∈ refs (T i) [] ∨ r ∈ newRefs (E (i + 1)) := by
+    intro i r hr
+    have := (round_ok (hround i) (hwf i) (fun r => r ∈ refs (T i) []) (fun _ h => h)).2.1 r hr
+    exact liveRunR_new _ _ r this
+  have horg : ∀ i, ∀ r ∈ refs (T i) [], origin r.t ≤ vs i := by
+    intro i
+    induction i with
+    | zero => exact horg0
+    | succ i ih =>
+      intro r hr
+      rcases hnext i r hr with h | h
+      · exact Nat.le_of_lt (Nat.lt_of_le_of_lt (ih r h) (hmono i (i + 1) (by omega)))
+      · exact Nat.le_of_eq (round_new_origin (hround i) r h)
+  intro r j x hx
+  obtain ⟨d, hd, hdk⟩ := deadKeys_sub_eventRefs H (b r) (E (r + 1)) (hfresh r) x hx
+  have hdorg : origin d.t ≤ vs (r + 1) := by
+    have hdisc := (round_ok (hround r) (hwf r) (fun r' => r' ∈ refs (T r) []) (fun _ h => h)).1
+    rcases eventRefs_sub_of_disc _ _ hdisc d hd with h | h
+    · exact Nat.le_of_lt (Nat.lt_of_le_of_lt (horg r d h) (hmono r (r + 1) (by omega)))
+    · exact Nat.le_of_eq (round_new_origin (hround r) d h)
+  induction j with
+  | zero =>
+    apply dead_not_live H (T r) (T (r + 1)) (b r) (vs (r + 1)) (E (r + 1)) (hfresh r) (hwf r) (hround r) _ x hx
+    intro a c ha hc hk
+    exact hU a c ⟨r, ha⟩ ⟨r, hc⟩ hk
+  | succ j ih =>
+    intro hlive
+    obtain ⟨ρ, hρ, hρk⟩ := List.mem_map.mp hlive
+    have hρd : ρ = d := hU ρ d ⟨r + 1 + j + 1, Or.inl hρ⟩ ⟨r, Or.inr hd⟩ (hρk.trans hdk.symm)
+    rcases hnext (r + 1 + j) ρ hρ with h | h
+    · exact ih (List.mem_map.mpr ⟨ρ, h, hρk⟩)
+    · have h1 := round_new_origin (hround (r + 1 + j)) ρ h
+      rw [hρd] at h1
+      have h2 := hmono (r + 1) (r + 1 + j + 1) (by omega)
+      omega
+
+/-- non-vacuity of `C05_dead_forever_rounds`: round 1 overwrites the only leaf, all later rounds are empty -/
+example : ∀ r j x,
+    x ∈ deadKeys id ((Trie.open [] .empty 0).applyEvents id
+          ((fun i => if i = 1 then (insertE 2 [66] (.leaf 1 [3] [65]) [] [3]).2 ++ [] else ([] : List Event)) (r + 1))) →
+    x ∉ nodeKeys id ((fun i => if i = 0 then Node.leaf 1 [3] [65] else .leaf 2 [3] [66]) (r + 1 + j)) := by
+  have hne : Ref.key id ⟨[], .leaf 1 [3] [65]⟩ ≠ Ref.key id ⟨[], .leaf 2 [3] [66]⟩ := by
+    intro hk
+    simp [Ref.key, key, le64] at hk
+    exact absurd (congrArg List.getLast? hk) (by simp)
+  apply C05_dead_forever_rounds id (fun i => if i = 0 then Node.leaf 1 [3] [65] else .leaf 2 [3] [66])
+    (fun i => if i = 1 then (insertE 2 [66] (.leaf 1 [3] [65]) [] [3]).2 ++ [] else []) (fun i => i + 1)
+    (fun _ => Trie.open [] .empty 0) (fun _ => ⟨rfl, rfl⟩)
+  · intro i
+    cases i with
+    | zero =>
+      simp only [Nat.zero_add, if_true, Nat.reduceAdd]
+      apply RoundEvents.ins _ _ _ _ _ (by simp)
+      have h2 : (insertE 2 [66] (.leaf 1 [3] [65]) [] [3]).1 = .leaf 2 [3] [66] := by simp [insertE, splitCommon]
+      rw [h2]
+      exact RoundEvents.nil _
+    | succ i => simp only [Nat.add_eq_zero_iff, Nat.succ_ne_zero, and_false, if_false, Nat.add_right_cancel_iff, false_and]
+                exact RoundEvents.nil _
+  · exact Or.inr (by simp [WFn])
+  · intro r hr; simp [refs] at hr; subst hr; simp [origin]
+  · intro i j h; omega
+  · intro a c ⟨i, ha⟩ ⟨k, hc⟩ hk
+    have hA : a = ⟨[], .leaf 1 [3] [65]⟩ ∨ a = ⟨[], .leaf 2 [3] [66]⟩ := by
+      rcases ha with ha | ha
+      · by_cases h0 : i = 0 <;> simp [h0, refs] at ha <;> simp [ha]
+      · by_cases h0 : i = 0 <;> simp [h0, insertE, splitCommon, eventRefs] at ha
+        rcases ha with ha | ha <;> simp [ha]
+    have hC : c = ⟨[], .leaf 1 [3] [65]⟩ ∨ c = ⟨[], .leaf 2 [3] [66]⟩ := by
+      rcases hc with hc | hc
+      · by_cases h0 : k = 0 <;> simp [h0, refs] at hc <;> simp [hc]
+      · by_cases h0 : k = 0 <;> simp [h0, insertE, splitCommon, eventRefs] at hc
+        rcases hc with hc | hc <;> simp [hc]
+    rcases hA with hA | hA <;> rcases hC with hC | hC <;> subst hA <;> subst hC <;>
+      first | rfl | exact absurd hk hne | exact absurd hk.symm hne
 
 /-- **Fresh origin**: every node an insert or delete at trie version `v` hands to `insertNode` as NEW carries origin
     `v` (so, the origin being part of the hashed bytes, a later round cannot re-create a key of an earlier origin —
